@@ -316,6 +316,7 @@ func slice(x, lo, hi, max value) value {
 func lookup(fr *frame, instr *ssa.Lookup, x, idx value) value {
 	switch x := x.(type) { // map or string
 	case *omap:
+		fr.i.x.noteMap(x, 1)
 		if sk, isS := idx.(sym); isS {
 			idx = fr.concKey(instr.X.Type().Underlying().(*types.Map).Key(), sk)
 		}
@@ -991,6 +992,7 @@ func callBuiltin(caller *frame, fn *ssa.Builtin, args []value) value {
 			if sk, isS := k.(sym); isS && m != nil {
 				k = caller.concKey(m.keyType, sk)
 			}
+			caller.i.x.noteMap(m, 2)
 			m.del(k)
 		default:
 			panic(fmt.Sprintf("illegal map type: %T", m))
@@ -1109,6 +1111,7 @@ func callBuiltin(caller *frame, fn *ssa.Builtin, args []value) value {
 func rangeIter(fr *frame, instr *ssa.Range, x value) iter {
 	switch x := x.(type) {
 	case *omap:
+		fr.i.x.noteMap(x, 1)
 		return fr.i.x.mapIter(x)
 	case string:
 		return &stringIter{Reader: strings.NewReader(x)}
